@@ -52,6 +52,18 @@ theorem c12_sendq_all_or_nothing (g : Cfg) (e : Env) (k : K) (size qlen op : Nat
       (appWriteQ g e k size qlen op data).k = k ∧ (appWriteQ g e k size qlen op data).qlen = qlen) :=
   appWriteQ_all_or_nothing g e k size qlen op data hmf
 
+/-- C12 (a batch through the send queue, the clause the `sendq=` oracle judges): whatever the queue size, its fill and the
+    batch, if nothing drains the queue meanwhile the receiver is handed exactly the data messages whose `WriteMessage` was
+    accepted (`(appWritesQ …).2`, a sub-list of the batch) — each once, in order, type and payload unchanged, no error — for
+    every segmentation: a refused message delivers nothing and does not disturb the ones around it. -/
+theorem c12_sendq_batch (gs gr : Cfg) (es er : Env) (hkeys : ∀ i, (es.keyAt i).length = 4) (hmf : gs.maxFrame > 0)
+    (hcomp : gs.writeCompression = true → gr.enableCompression = true) (hrl : gr.readLimit = 0)
+    (size qlen : Nat) (ms : List (Nat × Bytes)) (hok : ∀ m ∈ ms, MsgOK gs gr es er m.1 m.2)
+    (segs : List Bytes) (hsegs : segs.flatten = (appWritesQ gs es size {} qlen ms).1) :
+    delivs (feed gr er {} segs []).acts = dataOf (appWritesQ gs es size {} qlen ms).2 ∧ (feed gr er {} segs []).err = none := by
+  obtain ⟨hw, hsub⟩ := appWritesQ_eq gs es size hmf ms {} qlen
+  exact c12_roundtrip gs gr es er hkeys hmf hcomp hrl _ (fun m hm => hok m (hsub m hm)) segs (by rw [hsegs, hw])
+
 /-- … because the admission check counts what the fragmentation loop will write: `⌈n / maxFrame⌉` frames for the `n` bytes of
     the payload AFTER compression (one frame for an empty payload) -/
 theorem c12_sendq_frames (g : Cfg) (e : Env) (i op : Nat) (data : Bytes) (ws : List Bytes) (hmf : g.maxFrame > 0)
